@@ -50,6 +50,11 @@ pub struct Out {
     case_no: u64,
     samples: Vec<String>,
     pub exhaustive: bool,
+    /// C01: every operation line is prefixed with `L ` and its observation is followed by the
+    /// measured ledger delta (fresh tokens created, tokens dropped) of the operation
+    pub led_mode: bool,
+    led_before: (u64, u64),
+    led_pending: bool,
 }
 
 impl Out {
@@ -68,6 +73,9 @@ impl Out {
             case_no: 0,
             samples: Vec::new(),
             exhaustive: false,
+            led_mode: false,
+            led_before: (0, 0),
+            led_pending: false,
         }
     }
 
@@ -104,6 +112,16 @@ impl Out {
 
     /// announce an operation *before* running it (so an abort is attributable)
     pub fn announce(&mut self, op: &str) {
+        let op_owned;
+        let op = if self.led_mode && !op.starts_with("elem ") {
+            let s = crate::tok::snapshot();
+            self.led_before = (s.created + s.cloned + s.defaults, s.dropped);
+            self.led_pending = true;
+            op_owned = format!("L {op}");
+            op_owned.as_str()
+        } else {
+            op
+        };
         writeln!(self.ops, "{op}").unwrap();
         self.ops.flush().unwrap();
         self.cur_case.push_str(op);
@@ -114,7 +132,14 @@ impl Out {
     /// the implementation's canonical observation for the operation just announced
     pub fn observe(&mut self, obs: &str) {
         debug_assert!(!obs.contains('\n'));
-        writeln!(self.obs, "{obs}").unwrap();
+        if self.led_pending {
+            self.led_pending = false;
+            let s = crate::tok::snapshot();
+            let now = (s.created + s.cloned + s.defaults, s.dropped);
+            writeln!(self.obs, "{obs} | led +{} -{}", now.0 - self.led_before.0, now.1 - self.led_before.1).unwrap();
+        } else {
+            writeln!(self.obs, "{obs}").unwrap();
+        }
     }
 
     pub fn op(&mut self, op: &str, obs: &str) {
